@@ -12,7 +12,7 @@ from .stackcheck import run_driver
 INTS = ["int", "int8", "int16", "int32", "int64"]
 UINTS = ["uint", "uint8", "uint16", "uint32", "uint64"]
 FLOATS = ["float32", "float64", "complex64", "complex128"]
-FORMATS = ["dec", "hex", "oct", "bin", "sep", "ws"]
+FORMATS = ["dec", "hex", "oct", "bin", "sep", "ws", "fdot", "fexp"]
 CLASSES = ["plain", "comma", "colon", "quote", "backslash", "space", "ctrl", "nonascii", "empty", "backquote"]
 
 
